@@ -114,7 +114,7 @@ theorem augmentTree_pinv (B reg : Registry) (id : Nat) (ae : Bool) (s : PState) 
         exact hs.2 p1 hp1 a ha1
 
 section
-variable {B X : Registry} {ds : List Mod} {dk : KeyMap} (h : DevExt B X ds dk)
+variable {B X : Registry} {ds : List Mod} {dk : KeyMap} (h : DevExtCore B X ds dk)
 include h
 
 theorem new_ne_old {n t : Nat} (hn : ∃ d ∈ ds, d.seq = n) (ht : ∃ m ∈ B.mods, m.seq = t) : n ≠ t := by
